@@ -134,7 +134,11 @@ def pop_cases():
             for ns in (1, 3):
                 out.append(dict(kind=kind, nd=nd, ns=ns))
     out += [dict(kind='composed', nd=3, ns=2), dict(kind='covariate', nd=1, ns=2), dict(kind='reduced', nd=2, ns=2),
-            dict(kind='covariate-nc', nd=1, ns=3), dict(kind='composed-2cov', nd=3, ns=2), dict(kind='composed-2cov', nd=3, ns=3)]
+            dict(kind='covariate-nc', nd=1, ns=3), dict(kind='composed-2cov', nd=3, ns=2), dict(kind='composed-2cov', nd=3, ns=3),
+            # every leaf that reads a location and a scale behind a covariate model, one covariate row per sample: the draw of
+            # sample i is conditional on ITS covariates (non-centred leaves: after the leaf's own transform)
+            dict(kind='covariate-ln', nd=1, ns=3), dict(kind='covariate-ln-nc', nd=1, ns=3), dict(kind='covariate-tg', nd=1, ns=3),
+            dict(kind='covariate-ln-nc', nd=1, ns=2)]
     return out
 
 
@@ -175,6 +179,12 @@ def run_pop_case(case, rng):
         par = [3, 2, 1, 1, 7, 1, 2, 1, 0, 0, 1]   # G: mean, std, b_mean, b_std | pooled | LN: mu, sd, b_mu(c1,c2), b_sd(c1,c2)
         covs = np.array([[1.0, 2.0, 4.0], [2.0, 5.0, 1.0], [3.0, 1.0, 2.0]][:ns])
         claims1 = None
+    elif k in ('covariate-ln', 'covariate-ln-nc', 'covariate-tg'):
+        leaf = chi.TruncatedGaussianModel() if k == 'covariate-tg' else chi.LogNormalModel(centered=(k == 'covariate-ln'))
+        m = chi.CovariatePopulationModel(leaf, chi.LinearCovariateModel(n_cov=1))
+        par = [1, 2, 1, 1]          # location, scale, beta_location, beta_scale
+        covs = np.array([[1.0], [2.0], [3.0]][:ns])
+        claims1 = None
     else:
         m = chi.CovariatePopulationModel(chi.GaussianModel(centered=(k == 'covariate')), chi.LinearCovariateModel(n_cov=1))
         par = [3, 2, 1, 1]          # mean, std, beta_mean, beta_std
@@ -198,7 +208,8 @@ def run_pop_case(case, rng):
                                ('lognormal', 1 + 1 * c[1] + 0 * c[2], 2 + 0 * c[1] + 1 * c[2], 0)][d])
             else:
                 x = covs[i, 0]
-                claims.append(('normal', par[0] + par[2] * x, par[1] + par[3] * x, 0))
+                law = 'truncnorm' if k == 'covariate-tg' else 'lognormal' if k.startswith('covariate-ln') else 'normal'
+                claims.append((law, par[0] + par[2] * x, par[1] + par[3] * x, 0))
             sub = d if k not in ('G', 'G-nc', 'LN', 'LN-nc', 'TG', 'P') else 0
             groups.append('i%d_d%d' % (i, d))
     return to_record('PopulationModel[%s] n_dim=%d n=%d' % (k, nd, ns), atoms, cells, claims, groups)
